@@ -306,6 +306,144 @@ def t_hoist_args(tree):
     return _Hoist().visit(tree)
 
 
+class _Commute(ast.NodeTransformer):
+    """`2 * n` <-> `n * 2`, `x + 1` <-> `1 + x` where one operand is a
+    numeric literal (numbers and arrays commute; a string or list operand
+    cannot be combined with a number by these operators anyway)"""
+
+    def visit_BinOp(self, n):
+        self.generic_visit(n)
+        if isinstance(n.op, (ast.Mult, ast.Add)):
+            def num(x):
+                return isinstance(x, ast.Constant) and isinstance(
+                    x.value, (int, float)) and not isinstance(
+                        x.value, bool)
+            if num(n.left) != num(n.right):
+                n.left, n.right = n.right, n.left
+        return n
+
+
+def t_commute_const(tree):
+    return _Commute().visit(tree)
+
+
+class _TempReturn(ast.NodeTransformer):
+    """`return expr` -> `r_ = expr; return r_` (not for bare names,
+    constants or generators' returns)"""
+
+    def _block(self, stmts):
+        out = []
+        for st in stmts:
+            st = self.generic_visit(st)
+            if isinstance(st, ast.Return) and st.value is not None \
+                    and not isinstance(st.value, (ast.Name, ast.Constant)):
+                pre = ast.Assign(
+                    targets=[ast.Name(id='r_tmp_', ctx=ast.Store())],
+                    value=st.value)
+                ast.copy_location(pre, st)
+                st.value = ast.Name(id='r_tmp_', ctx=ast.Load())
+                out += [pre, st]
+            else:
+                out.append(st)
+        return out
+
+    def generic_visit(self, node):
+        node = super().generic_visit(node)
+        for field in ('body', 'orelse', 'finalbody'):
+            v = getattr(node, field, None)
+            if isinstance(v, list) and v and isinstance(v[0], ast.stmt):
+                setattr(node, field, self._block_shallow(v))
+        return node
+
+    def _block_shallow(self, stmts):
+        out = []
+        for st in stmts:
+            if isinstance(st, ast.Return) and st.value is not None \
+                    and not isinstance(st.value, (ast.Name, ast.Constant)):
+                pre = ast.Assign(
+                    targets=[ast.Name(id='r_tmp_', ctx=ast.Store())],
+                    value=st.value)
+                ast.copy_location(pre, st)
+                st.value = ast.Name(id='r_tmp_', ctx=ast.Load())
+                out += [pre, st]
+            else:
+                out.append(st)
+        return out
+
+
+def t_temp_return(tree):
+    return _TempReturn().visit(tree)
+
+
+class _TempCond(ast.NodeTransformer):
+    """`if cond:` -> `c1_ = cond; if c1_:` for `if` statements that stand
+    in a statement list of their own (not an `elif`: its condition must
+    not be evaluated before the preceding tests)"""
+
+    def __init__(self):
+        self.k = 0
+
+    def _block(self, stmts):
+        out = []
+        for st in stmts:
+            if isinstance(st, ast.If) and not isinstance(
+                    st.test, (ast.Name, ast.Constant)) and not any(
+                        isinstance(x, (ast.NamedExpr, ast.Await, ast.Yield))
+                        for x in ast.walk(st.test)):
+                self.k += 1
+                nm = f'c{self.k}_'
+                pre = ast.Assign(
+                    targets=[ast.Name(id=nm, ctx=ast.Store())],
+                    value=st.test)
+                ast.copy_location(pre, st)
+                st.test = ast.copy_location(
+                    ast.Name(id=nm, ctx=ast.Load()), st)
+                out += [pre, st]
+            else:
+                out.append(st)
+        return out
+
+    def generic_visit(self, node):
+        node = super().generic_visit(node)
+        for field in ('body', 'orelse', 'finalbody'):
+            v = getattr(node, field, None)
+            if not (isinstance(v, list) and v
+                    and isinstance(v[0], ast.stmt)):
+                continue
+            if field == 'orelse' and isinstance(node, ast.If) \
+                    and len(v) == 1 and isinstance(v[0], ast.If):
+                continue        # elif
+            setattr(node, field, self._block(v))
+        return node
+
+
+def t_temp_cond(tree):
+    return _TempCond().visit(tree)
+
+
+class _EarlyContinue(ast.NodeTransformer):
+    """a loop body that ends in `if c: <block>` (no else) becomes
+    `if not c: continue` followed by the block"""
+
+    def visit_For(self, n):
+        self.generic_visit(n)
+        if n.body and isinstance(n.body[-1], ast.If) \
+                and not n.body[-1].orelse and not n.orelse:
+            iff = n.body[-1]
+            guard = ast.If(
+                test=ast.UnaryOp(op=ast.Not(), operand=iff.test),
+                body=[ast.Continue()], orelse=[])
+            ast.copy_location(guard, iff)
+            ast.copy_location(guard.test, iff)
+            ast.copy_location(guard.body[0], iff)
+            n.body = n.body[:-1] + [guard] + iff.body
+        return n
+
+
+def t_early_continue(tree):
+    return _EarlyContinue().visit(tree)
+
+
 def t_opaque_locals(tree):
     return t_rename_locals(tree, suffix=None)
 
@@ -320,6 +458,10 @@ TRANSFORMS = {
     'aug-assign': t_aug_assign,
     'negate-if': t_negate_if,
     'pad': t_pad,
+    'commute-const': t_commute_const,
+    'temp-return': t_temp_return,
+    'temp-cond': t_temp_cond,
+    'early-continue': t_early_continue,
 }
 
 
